@@ -151,8 +151,12 @@ func (o *opt) matchShortOpt(args []string, idx int, c *ParseContext) (bool, int,
 				continue
 			}
 
-			c.Opts[o.theOne] = append(c.Opts[o.theOne], "true")
 			newRem := rem[:remIdx] + rem[remIdx+1:]
+			if strings.HasPrefix(newRem, "-") {
+				// not a folded option: removing the flag would leave `--...`
+				return false, 0, args
+			}
+			c.Opts[o.theOne] = append(c.Opts[o.theOne], "true")
 			if newRem == "" {
 				return true, 1, removeStringAt(idx, args)
 			}
